@@ -33,10 +33,14 @@
 (*      OS key may be down.                                                *)
 (* Soft zones (the statement is silent; the monitor only keeps the safety  *)
 (* part "nothing stays down" until the next quiescent point): physical     *)
-(* input while a replay runs, a control key typed so fast that other input *)
-(* arrives before it has been processed (the recording boundary is then    *)
-(* not determined by the input order), play of the macro being recorded,   *)
+(* input while a replay runs, play of the macro being recorded,            *)
 (* time-sensitive keys typed live or replayed near their timeout.          *)
+(* Late control keys: when other input arrives before a record / stop key  *)
+(* press has been processed (a burst, or a tap-hold key still undecided),  *)
+(* the macro is still judged by the order in which the keys were typed,    *)
+(* but it is marked `late` and a rejection of its replay carries the tag   *)
+(* "[late control key]" (a known defect class: kanata records at arrival   *)
+(* and starts / stops at processing time).                                  *)
 (***************************************************************************)
 EXTENDS Obs
 Ref == INSTANCE P_C04
@@ -56,8 +60,10 @@ MonInit(p) ==
     down |-> {},       \* keys the OS sees down
     pend |-> 0,        \* typed events kanata has not processed yet (one per tick, in order)
     ctlp |-> 0,        \* ticks until the latest control key press has been processed (0 = none pending)
-    rec |-> <<>>,      \* <<[id, evs, fz]>> while recording; evs : Seq([p, c, g]), g = ticks until the next event
-    mac |-> <<>>,      \* stored macros Seq([id, evs, rel, fz]); rel = keys still down (released at the end, any order)
+    rec |-> <<>>,      \* <<[id, evs, late]>> while recording; evs : Seq([p, c, g]), g = ticks until the next event
+    mac |-> <<>>,      \* stored macros Seq([id, evs, rel, late]); rel = keys still down (released at the end, any order)
+    lastSaved |-> 0 - 1,   \* id saved by the latest control key press (-1: none)
+    repLate |-> FALSE, \* the expected replay involves a macro marked late
     exp |-> <<>>,      \* expected OS events not yet seen: <<"o", ev>> in order | <<"s", set of release events>>
     replaying |-> FALSE, budget |-> 0,
     mode |-> "sync",   \* "sync" | "lost" (soft zone: wait for the next quiescent point)
@@ -73,9 +79,9 @@ StillDown(evs) == StillDownRec(evs, {})
 MacHas(mac, id) == \E i \in DOMAIN mac : mac[i].id = id
 MacGet(mac, id) == mac[CHOOSE i \in DOMAIN mac : mac[i].id = id]
 MacPut(mac, e) == SelectSeq(mac, LAMBDA x : x.id # e.id) \o <<e>>
-SaveMac(m, id, evs, fz) ==
-  [m EXCEPT !.mac = MacPut(@, [id |-> id, evs |-> evs, rel |-> StillDown(evs), fz |-> fz])]
-NewRec(id) == [id |-> id, evs |-> <<>>, fz |-> FALSE]
+SaveMac(m, id, evs, late) ==
+  [m EXCEPT !.mac = MacPut(@, [id |-> id, evs |-> evs, rel |-> StillDown(evs), late |-> late]), !.lastSaved = id]
+NewRec(id) == [id |-> id, evs |-> <<>>, late |-> FALSE]
 DropLast(s, n) == SubSeq(s, 1, IF Len(s) > n THEN Len(s) - n ELSE 0)
 
 \* an input event arrives: what it does to the recording
@@ -86,17 +92,17 @@ RecArrive(m0, isPress, c) ==
       \* event is not stored yet) ends the recording; the stored events are the macro
       over == isPress /\ m0.rec # <<>> /\ Len(m0.rec[1].evs) > 2 * p.max + 1
       m == IF over
-           THEN [SaveMac(m0, m0.rec[1].id, DropLast(m0.rec[1].evs, 1), m0.rec[1].fz) EXCEPT !.rec = <<>>]
+           THEN [SaveMac(m0, m0.rec[1].id, DropLast(m0.rec[1].evs, 1), m0.rec[1].late) EXCEPT !.rec = <<>>]
            ELSE m0
   IN IF isPress /\ ctl # <<>> /\ ctl[1].k = "rec"
      THEN IF m.rec = <<>> THEN [m EXCEPT !.rec = <<NewRec(ctl[1].n)>>]
           ELSE LET r == m.rec[1]
-                   m1 == SaveMac(m, r.id, r.evs, r.fz)
+                   m1 == SaveMac(m, r.id, r.evs, r.late)
                IN [m1 EXCEPT !.rec = IF r.id = ctl[1].n THEN <<>> ELSE <<NewRec(ctl[1].n)>>]
      ELSE IF isPress /\ ctl # <<>> /\ ctl[1].k = "stop"
      THEN IF m.rec = <<>> THEN m
           ELSE LET r == m.rec[1] IN
-               [SaveMac(m, r.id, DropLast(r.evs, ctl[1].n), r.fz) EXCEPT !.rec = <<>>]
+               [SaveMac(m, r.id, DropLast(r.evs, ctl[1].n), r.late) EXCEPT !.rec = <<>>]
      ELSE IF m.rec # <<>>
      THEN [m EXCEPT !.rec[1].evs = Append(@, [p |-> isPress, c |-> c, g |-> 0])]
      ELSE m
@@ -105,24 +111,23 @@ RecTick(m) ==      \* the gap after the newest recorded event grows
   IF m.rec = <<>> \/ m.rec[1].evs = <<>> THEN m
   ELSE LET n == Len(m.rec[1].evs) IN [m EXCEPT !.rec[1].evs[n].g = OMin(@ + 1, m.p.gcap)]
 
-\* soft zone for the bookkeeping: the recording boundary is not determined by the input order
-FuzzAll(m) ==
-  [m EXCEPT !.mac = [i \in DOMAIN m.mac |-> [m.mac[i] EXCEPT !.fz = TRUE]],
-            !.rec = IF m.rec = <<>> THEN <<>> ELSE <<[m.rec[1] EXCEPT !.fz = TRUE]>>,
-            !.mode = "lost", !.exp = <<>>]
+\* other input arrives while a record / stop key press has not been processed yet: what that press
+\* started / saved is marked late
+MarkLate(m) ==
+  [m EXCEPT !.mac = [i \in DOMAIN m.mac |-> IF m.mac[i].id = m.lastSaved THEN [m.mac[i] EXCEPT !.late = TRUE] ELSE m.mac[i]],
+            !.rec = IF m.rec = <<>> THEN <<>> ELSE <<[m.rec[1] EXCEPT !.late = TRUE]>>]
 Lose(m) == [m EXCEPT !.mode = "lost", !.exp = <<>>]
 
 \* ------------------------------------------------------------------ (P) expected output
 \* the events a replay of macro `id` feeds, nested plays spliced in (never a macro that is already
-\* being replayed): [items, ok, n]; items: <<"e", ev>> | <<"s", set of codes to release>>
+\* being replayed): [items, ok, n, late]; items: <<"e", ev>> | <<"s", set of codes to release>>
 RECURSIVE Expand(_, _, _, _)
 RECURSIVE ExpandEvs(_, _, _, _, _)
 Expand(p, mac, id, active) ==
-  LET e == MacGet(mac, id) IN
-  IF e.fz THEN [items |-> <<>>, ok |-> FALSE, n |-> 0]
-  ELSE LET b == ExpandEvs(p, mac, e.evs, active, [items |-> <<>>, ok |-> TRUE, n |-> 1])
-       IN IF e.rel = {} THEN b
-          ELSE [b EXCEPT !.items = Append(@, <<"s", e.rel>>), !.n = @ + Cardinality(e.rel)]
+  LET e == MacGet(mac, id)
+      b == ExpandEvs(p, mac, e.evs, active, [items |-> <<>>, ok |-> TRUE, n |-> 1, late |-> e.late])
+  IN IF e.rel = {} THEN b
+     ELSE [b EXCEPT !.items = Append(@, <<"s", e.rel>>), !.n = @ + Cardinality(e.rel)]
 ExpandEvs(p, mac, evs, active, acc) ==
   IF evs = <<>> \/ ~acc.ok THEN acc
   ELSE LET ev == Head(evs)
@@ -133,7 +138,7 @@ ExpandEvs(p, mac, evs, active, acc) ==
                THEN ExpandEvs(p, mac, Tail(evs), active, a1)          \* never into itself / nothing stored
                ELSE LET x == Expand(p, mac, ctl[1].n, active \cup {ctl[1].n}) IN
                     ExpandEvs(p, mac, Tail(evs), active,
-                              [items |-> a1.items \o x.items, ok |-> x.ok, n |-> a1.n + x.n])
+                              [items |-> a1.items \o x.items, ok |-> x.ok, n |-> a1.n + x.n, late |-> a1.late \/ x.late])
           ELSE IF ev.p /\ ctl # <<>>        \* a record / stop key inside a macro: not determined here
           THEN [a1 EXCEPT !.ok = FALSE]
           ELSE ExpandEvs(p, mac, Tail(evs), active, a1)
@@ -169,7 +174,8 @@ Typing(p, ref, items) ==
                    ELSE [t EXCEPT !.out = <<<<"o", <<"d", k>>>>, <<"o", <<"u", k>>>>>> \o @]
            ELSE [ref |-> ref, out |-> <<>>, ok |-> FALSE]
       ELSE LET r1 == Ref!ProcessEvent(ref, [p |-> ev.p, c |-> ev.c])
-               o == Ref!ExpectedOut(KeysNow(ref), KeysNow(r1))
+               \* compared by the effect on the OS key state (a key held through two coordinates goes up once)
+               o == Eff(Ref!ExpectedOut(KeysNow(ref), KeysNow(r1)), SeqToSet(KeysNow(ref))).eff
                t == Typing(p, r1, Tail(items))
            IN [t EXCEPT !.out = OutItems(o) \o @]
 
@@ -189,7 +195,7 @@ PlayArrive(m, isPress, c) ==
              ELSE LET x == Expand(p, m1.mac, ctl[1].n, {ctl[1].n})
                       t == Typing(p, m1.ref, x.items)
                   IN IF ~x.ok \/ ~t.ok THEN Lose(m1)
-                     ELSE [m1 EXCEPT !.ref = t.ref, !.exp = @ \o t.out, !.replaying = TRUE,
+                     ELSE [m1 EXCEPT !.ref = t.ref, !.exp = @ \o t.out, !.replaying = TRUE, !.repLate = x.late,
                                      !.budget = ConstPace * (x.n + 1) + 10]
 
 \* r: input record [e, c, out]
@@ -200,18 +206,19 @@ MonIn(m, r) ==
   ELSE
     LET isPress == r.e = "d"
         ctl == CtlOf(m.p, r.c)
-        \* a control key press still waiting to be processed: the boundary is not determined
-        m0 == IF m.ctlp > 0 THEN FuzzAll(m) ELSE m
-        m1 == RecArrive(m0, isPress, r.c)
-        m2 == PlayArrive(m1, isPress, r.c)
         isCtlPress == isPress /\ ctl # <<>>
-        \* when will this control key press have been processed?
-        sure == m.lastIdle \/ (m.p.th = <<>> /\ m2.mode = "sync")
-        m3 == IF isCtlPress /\ ~sure THEN FuzzAll(m2) ELSE m2
-        wait == IF m.lastIdle THEN 1 ELSE m.pend + 1 + (IF m.replaying THEN 1 ELSE 0)
+        \* input while a control key press is still waiting to be processed
+        m0 == IF m.ctlp > 0 THEN MarkLate(m) ELSE m
+        m1 == RecArrive(IF isCtlPress THEN [m0 EXCEPT !.lastSaved = 0 - 1] ELSE m0, isPress, r.c)
+        m3 == PlayArrive(m1, isPress, r.c)
+        \* when will this control key press have been processed?  One queued event per tick (a replayed
+        \* event may be queued ahead); with time-sensitive keys only known when kanata was idle
+        wait == IF m.lastIdle THEN 1
+                ELSE IF m.p.th # <<>> THEN 99
+                ELSE m.pend + 1 + (IF m.replaying \/ m.mode = "lost" THEN 1 ELSE 0)
     IN [m3 EXCEPT !.phys = IF isPress THEN @ \cup {r.c} ELSE @ \ {r.c},
                   !.pend = OMin(@ + 1, 40),
-                  !.ctlp = IF isCtlPress THEN wait ELSE @,
+                  !.ctlp = IF isCtlPress THEN OMax(wait, m.ctlp) ELSE m.ctlp,
                   !.lastIdle = FALSE]
 
 RECURSIVE Match(_, _)
@@ -231,25 +238,29 @@ MonTick(m, out, idle, cb) ==
   ELSE
     LET o == Eff(out, m.down)
         pend == IF m.pend > 0 THEN m.pend - 1 ELSE 0
-        m1 == [RecTick(m) EXCEPT !.down = o.down, !.pend = pend, !.ctlp = IF @ > 0 THEN @ - 1 ELSE 0,
+        m1 == [RecTick(m) EXCEPT !.down = o.down, !.pend = pend,
+                                 !.ctlp = IF idle THEN 0 ELSE IF @ > 0 /\ @ < 99 THEN @ - 1 ELSE @,
                                  !.lastIdle = idle]
+        tag == IF m.replaying /\ m.repLate THEN "C19 [late control key]: " ELSE "C19: "
         quiet == m.phys = {} /\ idle /\ pend = 0
     IN IF m.mode = "lost"
        THEN IF ~quiet THEN m1
             ELSE IF o.down # {} THEN Fail(m1, "C19: a key is left down (kanata idle, no physical key held)")
-            ELSE [m1 EXCEPT !.mode = "sync", !.exp = <<>>, !.replaying = FALSE, !.budget = 0,
+            ELSE [m1 EXCEPT !.mode = "sync", !.exp = <<>>, !.replaying = FALSE, !.repLate = FALSE, !.budget = 0,
                             !.ref = Ref!MonInit(m.p.c04)]
        ELSE LET x == Match(m.exp, o.eff) IN
             IF ~x.ok
-            THEN Fail(m1, IF m.replaying THEN "C19: replay output differs from typing the recorded events again"
+            THEN Fail(m1, IF m.replaying THEN tag \o "replay output differs from typing the recorded events again"
                           ELSE "C19: output differs from the reference for typed keys")
             ELSE IF idle /\ pend = 0 /\ x.exp # <<>>
-            THEN Fail(m1, IF m.replaying THEN "C19: replay ended with expected output missing (events dropped or keys not released)"
+            THEN Fail(m1, IF m.replaying THEN tag \o "replay ended with expected output missing (events dropped or keys not released)"
                           ELSE "C19: expected output missing")
             ELSE IF quiet /\ o.down # {}
             THEN Fail(m1, "C19: a key is left down (kanata idle, no physical key held)")
             ELSE IF m.replaying /\ ~idle /\ m.budget = 0
             THEN Fail(m1, "C19: replay does not end")
+            \* a replay that involved a late macro has ended: resynchronise at the next quiescent point
+            ELSE IF m.replaying /\ idle /\ m.repLate THEN Lose([m1 EXCEPT !.replaying = FALSE, !.repLate = FALSE, !.budget = 0])
             ELSE [m1 EXCEPT !.exp = x.exp,
                             !.replaying = m.replaying /\ ~idle,
                             !.budget = IF m.replaying /\ ~idle THEN m.budget - 1 ELSE 0]
